@@ -189,6 +189,43 @@ def append(ctx):
     ctx.ob("R12.2", "floor", n >= 2, "%d receiving paths (floor 2: data and end-of-stream)" % n)
 
 
+def _moved_item_by_item(lf, lv, upto):
+    """The queueing path ran a loop over self.files.drain(..) to exhaustion, and every iteration of that loop pushes the
+    item it was handed (and nothing else) onto the files list of some request."""
+    def strip(t):
+        t = look(t)
+        while t[0] == "mut" or (t[0] == "call" and last_seg(t[1]) in ("into_iter", "by_ref") and t[2]):
+            t = look(t[1]) if t[0] == "mut" else look(t[2][0])
+        return t
+    drains = []
+    for e in lf.events[:upto]:
+        if e[0] == "cond" and e[3][0] == "discr" and is_call(look(e[3][1]), "next") and option_is_some(e[4]) is False:
+            it = strip(look(e[3][1])[2][0])
+            if is_call(it, "drain") and "Vec" in it[1] and self_field(it[2][0], "files") and look(it[2][1])[0] == "agg" and "RangeFull" in look(it[2][1])[1]:
+                drains.append(norm(it))
+    if len(drains) != 1:
+        return False
+    bodies = 0
+    for l2 in lv:
+        if l2.kind != "loop":
+            continue
+        for j, e in enumerate(l2.events):
+            if e[0] == "cond" and e[3][0] == "discr" and is_call(look(e[3][1]), "next") and option_is_some(e[4]) is True and norm(strip(look(e[3][1])[2][0])) == drains[0]:
+                nx = look(e[3][1])
+                pushes = [p for p in l2.events[j:] if p[0] == "call" and last_seg(p[3]) in ("push", "push_back", "insert", "extend", "push_front")]
+                good = len(pushes) == 1 and last_seg(pushes[0][3]) == "push" and "Vec" in pushes[0][3]
+                if good:
+                    tgt, item = look(pushes[0][4][2][0]), look(pushes[0][4][2][1])
+                    while tgt[0] == "mut":
+                        tgt = look(tgt[1])
+                    good = tgt[0] == "field" and tgt[3] == "files" and tgt[2] == "request::Request" and payload_of(item) is not None and norm(payload_of(item)) == norm(nx)
+                if not good:
+                    return False
+                bodies += 1
+                break
+    return bodies >= 1
+
+
 def move(ctx):
     name = conn.parse_loop_fn(ctx)
     fn, lv = leaves(ctx, name, lower=True)      # `pending.take().map(|mut r| { r.files = ..; r })`: the closure is part of the path
@@ -209,6 +246,14 @@ def move(ctx):
                     literal = pushed[3][nm.index("files")]
                 ok = len(fa) >= 1 or literal is not None
                 chain = []
+                if not ok and _moved_item_by_item(lf, lv, i):
+                    # `for f in self.files.drain(..) { request.files.push(f) }`: every item, in order, into the request's (empty) list
+                    chain = ["drain", "push-each"]
+                    ctx.ob("R12.3", "whole-list-moved-before-queue", True, "before a completed request is queued, every item of self.files.drain(..) is pushed, in order, onto request.files (chain %s)" % chain, fn.loc(e[1]))
+                    ctx.ob("R12.5", "order-preserving", True, "the chain from self.files to Request.files keeps the order (%s)" % chain, fn.loc(e[1]))
+                    took = [a for a in lf.events[:i] if a[0] == "call" and last_seg(a[3]) == "take" and self_field(a[4][2][0], "pending_request")]
+                    ctx.ob("R12.3", "pushed-is-pending-request", len(took) == 1, "the queued value is the pending request taken out of self", fn.loc(e[1]))
+                    continue
                 if ok:
                     v = look(literal if literal is not None else fa[-1][4])
                     x = v
